@@ -17,7 +17,7 @@ CHECK = {
             {"name": "store", "run": "^TestC06_Store$", "checks": {"quick": 300, "thorough": 1500}, "shards": {"quick": 1, "thorough": 16}},
             # the in-range helper and its three call sites (package p_proto)
             {"name": "inrange", "package": "p_proto", "run": "^TestC06_InRange$", "checks": {"quick": 20000, "thorough": 300000}, "shards": {"quick": 1, "thorough": 16}},
-            {"name": "boundary", "package": "p_proto", "run": "^TestC06_Boundary$", "checks": {"quick": 150, "thorough": 2000}, "shards": {"quick": 1, "thorough": 8}},
+            {"name": "boundary", "package": "p_proto", "run": "^TestC06_Boundary$", "checks": {"quick": 150, "thorough": 300}, "shards": {"quick": 1, "thorough": 8}, "rounds": {"quick": 1, "thorough": 4}, "shrink_exec": 300},
             {"name": "gossipsite", "package": "p_proto", "run": "^TestC06_GossipSite$", "checks": {"quick": 60, "thorough": 150}, "shards": {"quick": 4, "thorough": 16}, "rounds": {"quick": 1, "thorough": 3}},
             {"name": "sites", "package": "p_proto", "run": "^TestC06_Sites$", "checks": {"quick": 2500, "thorough": 20000}, "shards": {"quick": 2, "thorough": 16}},
         ],
